@@ -52,6 +52,14 @@ def unit_safe_fast(ctx):
             b = bytearray(a)
             b[i] ^= 1 << rng.randrange(8)
             yield "diff@%d" % (0 if i == 0 else (2 if i == n - 1 else 1)), a, bytes(b)
+        # two differing octets whose differences cancel under XOR (an accumulator that xors instead of ors misses them)
+        for _ in range(3 if n >= 2 else 0):
+            i, j = rng.sample(range(n), 2)
+            bit = 1 << rng.randrange(8)
+            b = bytearray(a)
+            b[i] ^= bit
+            b[j] ^= bit
+            yield "diff2-cancelling", a, bytes(b)
         yield "random", a, bytes(rng.getrandbits(8) for _ in range(n))
         yield "zero", bytes(n), bytes(n)
         yield "ones", b"\xff" * n, b"\xff" * n
@@ -120,9 +128,9 @@ def unit_safe_fast(ctx):
             # word-array functions
             nmax = 17 if ctx.tier == "quick" else 21
             for n in range(0 if fn.startswith("ww") or fn.startswith("zzIs") else 1, nmax):
-                reps = 14 if ctx.tier == "quick" else 42
+                reps = 16 if ctx.tier == "quick" else 48
                 for rep in range(reps):
-                    cls = ["equal", "diff-lo", "diff-hi", "random", "boundary", "kmod", "carry"][rep % 7]
+                    cls = ["equal", "diff-lo", "diff-hi", "random", "boundary", "kmod", "carry", "diff2"][rep % 8]
                     a = rng.getrandbits(n * B) if n else 0
                     b = a
                     if cls == "diff-lo" and n:
@@ -134,6 +142,11 @@ def unit_safe_fast(ctx):
                     elif cls == "boundary":
                         a = rng.choice([0, (1 << (n * B)) - 1, 1]) if n else 0
                         b = rng.choice([0, (1 << (n * B)) - 1, a]) if n else 0
+                    elif cls == "diff2" and n >= 2:
+                        # the same bit flipped in two words: the word differences cancel under XOR
+                        i, j = rng.sample(range(n), 2)
+                        bit = rng.randrange(B)
+                        b = a ^ (1 << (i * B + bit)) ^ (1 << (j * B + bit))
                     elif cls == "carry" and n:
                         # carry chains: words of a are WORD_MAX / 0 / random, words of b are 1 / 0 / WORD_MAX / random, so that a
                         # word equal to WORD_MAX receives a carry, a carry dies, a carry leaves the top word
